@@ -26,6 +26,8 @@ type CtxCase struct {
 	Catalog   []SymImport `json:"catalog"`
 	NoCatalog bool        `json:"no_catalog"`
 	History   []string    `json:"history"`
+	// UserCatalog: the catalog handed to the readers is a type defined by the caller
+	UserCatalog bool `json:"user_catalog_type,omitempty"`
 }
 
 func (k *CtxCase) catalogs() (refsym.Catalog, ion.Catalog) {
@@ -38,8 +40,20 @@ func (k *CtxCase) catalogs() (refsym.Catalog, ion.Catalog) {
 		rc = append(rc, &refsym.Shared{Name: t.Name, Version: t.Version, Slots: slotsOf(t.Symbols)})
 		ssts = append(ssts, ion.NewSharedSymbolTable(t.Name, t.Version, t.Symbols))
 	}
+	if k.UserCatalog {
+		// a catalog type of the caller's own (Catalog is an interface)
+		return rc, userCatalog{ion.NewCatalog(ssts...)}
+	}
 	return rc, ion.NewCatalog(ssts...)
 }
+
+// userCatalog delegates to the library's catalog but is a type of its own.
+type userCatalog struct{ inner ion.Catalog }
+
+func (u userCatalog) FindExact(name string, version int) ion.SharedSymbolTable {
+	return u.inner.FindExact(name, version)
+}
+func (u userCatalog) FindLatest(name string) ion.SharedSymbolTable { return u.inner.FindLatest(name) }
 
 // runCtxCase compares ion-go with the reference on the document; "" when the property holds.
 func runCtxCase(k *CtxCase) (verdict string) {
@@ -196,6 +210,11 @@ var catalogPool = []SymImport{
 	{Name: "D", Version: 100, Symbols: []string{"d1", "d2_v100", "d3_v100", "d4_v100"}},
 	{Name: "D", Version: 10, Symbols: []string{"d1", "d2_v10", "d3_v10"}},
 	{Name: "D", Version: 2, Symbols: []string{"d1"}},
+	// names ending in digits: (name, version) pairs whose concatenations coincide
+	{Name: "T1", Version: 11, Symbols: []string{"t1_11_a", "t1_11_b", "t1_11_c"}},
+	{Name: "T11", Version: 1, Symbols: []string{"t11_1_x", "t11_1_y"}},
+	{Name: "T1", Version: 1, Symbols: []string{"t1_1_only"}},
+	{Name: "T", Version: 111, Symbols: []string{"t_111_p", "t_111_q", "t_111_r", "t_111_s"}},
 }
 
 func (h *histGen) lstSpec() (refsym.LSTSpec, string) {
@@ -216,6 +235,9 @@ func (h *histGen) lstSpec() (refsym.LSTSpec, string) {
 			if r.Intn(5) == 0 {
 				imp.Name = "D"
 				imp.Version = []int{1, 2, 3, 9, 10, 11, 99, 100, 101, 1000}[r.Intn(10)]
+			} else if r.Intn(6) == 0 {
+				pick := [][2]interface{}{{"T1", 11}, {"T11", 1}, {"T1", 1}, {"T", 111}, {"T1", 2}, {"T11", 2}, {"T", 11}}[r.Intn(7)]
+				imp.Name, imp.Version = pick[0].(string), pick[1].(int)
 			}
 			if r.Intn(6) == 0 {
 				imp.Version = -1
@@ -305,7 +327,7 @@ func runC10(c *Ctx) {
 	c.Parallel(n, func(w, i int) {
 		cs := c.Seed*10_000_019 + int64(i)
 		r := rand.New(rand.NewSource(cs))
-		k := CtxCase{Binary: i%2 == 1}
+		k := CtxCase{Binary: i%2 == 1, UserCatalog: i%3 == 2}
 		// catalog variant
 		switch r.Intn(6) {
 		case 0:
@@ -451,6 +473,38 @@ func runC10(c *Ctx) {
 			c.Sample(map[string]interface{}{"history": h.hist, "input": k.Shown})
 		}
 	})
+	// directed: a symbol table struct whose own content (open-content field names, fields of its
+	// import structs, ignored values) uses local ids of the table in force before it. Those resolve
+	// against the outgoing table; everything after the struct against the new one.
+	ivm := []byte{0xE0, 0x01, 0x00, 0xEA}
+	cat := func(parts ...[]byte) []byte {
+		var b []byte
+		for _, p := range parts {
+			b = append(b, p...)
+		}
+		return b
+	}
+	lst1 := binLST(binField(7, tlvBytes(0xB, binStr("meta"), binStr("x"), binStr("y"))))
+	user := tlvBytes(0xD, binField(10, binInt(1)), binField(11, binInt(2)), binField(12, binSym(10)))
+	syms2 := binField(7, tlvBytes(0xB, binStr("alpha"), binStr("beta"), binStr("gamma")))
+	directed := [][]byte{
+		cat(ivm, lst1, user, binLST(binField(10, binInt(7)), syms2), user),
+		cat(ivm, lst1, binLST(binField(10, binInt(7)), syms2), user),
+		cat(ivm, lst1, user, binLST(syms2, binField(11, tlvBytes(0xD, binField(12, binSym(11))))), user, user),
+		cat(ivm, lst1, binLST(binField(6, tlvBytes(0xB, tlvBytes(0xD, binField(4, binStr("absent")), binField(5, binInt(1)), binField(8, binInt(0)), binField(10, binSym(12))))), syms2), user),
+		cat(ivm, lst1, user, binLST(binField(10, binInt(7)), binField(6, binSym(3)), binField(7, tlvBytes(0xB, binStr("appended")))), user, tlvBytes(0xD, binField(13, binInt(3)))),
+		[]byte("$ion_symbol_table::{symbols:[\"meta\",\"x\",\"y\"]} {$10:1,$11:2,$12:$10} $ion_symbol_table::{$10:7,symbols:[\"alpha\",\"beta\",\"gamma\"]} {$10:1,$11:2,$12:$10}"),
+		[]byte("$ion_symbol_table::{symbols:[\"meta\",\"x\",\"y\"]} $ion_symbol_table::{symbols:[\"alpha\",\"beta\",\"gamma\"],$11:{$12:$11}} {$10:1,$11:2,$12:$10} $12"),
+	}
+	for di, data := range directed {
+		k := CtxCase{Binary: len(data) > 4 && data[0] == 0xE0, InputHex: hex.EncodeToString(data), NoCatalog: di%2 == 0}
+		k.Shown = showInput(k.Binary, data)
+		c.Eval(1)
+		c.NonTrivial(k.InputHex)
+		if v := runCtxCase(&k); v != "" {
+			c.Violate("symbol-context-directed", Class(v), fmt.Sprintf("input=%s :: %s", k.Shown, v), k, nil)
+		}
+	}
 }
 
 func init() {
